@@ -40,8 +40,9 @@ Chg(p, args, targs, chm, cons) ==
   CASE p.k \in {"dist", "cat"} -> C2(<<>> \in cons, {})
     [] p.k = "static"  -> ChgSites(p, args, targs, chm, cons, 1, <<>>, <<>>, {})
     \* a closure tags its stored arguments UnknownChange (conservative by design): they count as tainted
-    [] p.k = "closure" -> IF p.n = 2 THEN Chg(p.subs[1], args \o p.x, targs \o AllT(Len(p.x), p.n # 1), chm, cons)
-                          ELSE Chg(p.subs[1], p.x \o args, AllT(Len(p.x), p.n # 1) \o targs, chm, cons)
+    \* (partial_apply's argument lives in the function itself and is not tagged at all)
+    [] p.k = "closure" -> Chg(p.subs[1], CloArgs(p, args, p.x),
+                              CloArgs(p, targs, [j \in 1..Len(p.x) |-> IF p.n = 1 \/ (p.n = 3 /\ j = 1) THEN FALSE ELSE TRUE]), chm, cons)
     [] p.k \in {"vmap", "repeat"} ->
          LET el(i) == IF p.k = "repeat" THEN args
                       ELSE [j \in 1..Len(args) |-> CASE p.x[j] = 1 -> Unstack(args[j], i)
